@@ -26,8 +26,31 @@ STD_AXIOMS = {"propext", "Classical.choice", "Quot.sound"}
 EXIT_OK, EXIT_VIOLATION, EXIT_INFRA = 0, 1, 2
 
 
+def limit_memory():
+    """A change to the library that makes it allocate without bound must surface as a MemoryError inside the
+    library (an exception other than SolveFailure: reported), not as the check being killed by the kernel."""
+    try:
+        import resource
+        lim = int(float(os.environ.get("PYVSC_VERIF_MEM_GB", "8")) * (1 << 30))
+        soft, hard = resource.getrlimit(resource.RLIMIT_AS)
+        if hard == resource.RLIM_INFINITY or lim < hard:
+            resource.setrlimit(resource.RLIMIT_AS, (lim, hard))
+    except Exception:
+        pass
+
+
+def _unlimit_memory():
+    try:
+        import resource
+        soft, hard = resource.getrlimit(resource.RLIMIT_AS)
+        resource.setrlimit(resource.RLIMIT_AS, (hard, hard))
+    except Exception:
+        pass
+
+
 def setup_repo_path():
     """Make `import vsc` resolve to the current working tree of the repository."""
+    limit_memory()
     src = os.path.join(REPO, "src")
     if sys.path[0] != src:
         sys.path.insert(0, src)
@@ -247,7 +270,8 @@ class Drv:
                 for r in reqs:
                     f.write(json.dumps(r, separators=(",", ":")) + "\n")
             with open(fin) as f:
-                p = subprocess.run([PVDRV], stdin=f, stdout=subprocess.PIPE, stderr=subprocess.PIPE, text=True)
+                p = subprocess.run([PVDRV], stdin=f, stdout=subprocess.PIPE, stderr=subprocess.PIPE, text=True,
+                                   preexec_fn=_unlimit_memory)
             if p.returncode != 0:
                 keep = os.environ.get("PVDRV_KEEP")
                 if keep:
@@ -402,11 +426,100 @@ def guarded(ck, tag, case, fn, *args):
         return None
 
 
+class CheckTimeout(BaseException):
+    pass
+
+
+class CallTimeout(BaseException):
+    """one call into the library exceeded its time limit (BaseException: `except Exception` in the library must not swallow it)"""
+
+
+class time_limit:
+    """`with time_limit(s):` raises CallTimeout in the main thread when the body runs longer than `s` seconds (also turns
+    MemoryError from the address-space limit into CallTimeout); nests inside run_main's overall alarm and restores it."""
+
+    def __init__(self, seconds):
+        self.seconds = seconds
+
+    def __enter__(self):
+        import signal
+        self.old_handler = signal.getsignal(signal.SIGALRM)
+        self.remaining = signal.setitimer(signal.ITIMER_REAL, 0)[0]
+        import time
+        self.t0 = time.time()
+
+        def on(signum, frame):
+            raise CallTimeout()
+        signal.signal(signal.SIGALRM, on)
+        signal.setitimer(signal.ITIMER_REAL, self.seconds, 1.0)     # re-fires every second should something swallow it
+        return self
+
+    def __exit__(self, et, ev, tb):
+        import signal
+        import time
+        signal.setitimer(signal.ITIMER_REAL, 0)
+        signal.signal(signal.SIGALRM, self.old_handler)
+        if self.remaining:
+            signal.setitimer(signal.ITIMER_REAL, max(0.01, self.remaining - (time.time() - self.t0)))
+        if et is MemoryError:
+            raise CallTimeout() from None
+        return False
+
+
+def _kill_descendants():
+    import signal
+    me = os.getpid()
+    kids = {}
+    for d in os.listdir("/proc"):
+        if d.isdigit():
+            try:
+                f = open("/proc/%s/stat" % d).read()
+                kids.setdefault(int(f.rsplit(")", 1)[1].split()[1]), []).append(int(d))
+            except Exception:
+                pass
+    todo, seen = [me], []
+    while todo:
+        for k in kids.get(todo.pop(), []):
+            seen.append(k)
+            todo.append(k)
+    for k in seen:
+        try:
+            os.kill(k, signal.SIGKILL)
+        except Exception:
+            pass
+
+
+def _on_alarm(signum, frame):
+    raise CheckTimeout()
+
+
 def run_main(main):
-    """uniform top level: infrastructure problems exit 2, never a bare traceback"""
+    """uniform top level: infrastructure problems exit 2, never a bare traceback.
+
+    A wall-clock budget guards the whole run (quick: 25 min for checks that take seconds to a minute; thorough: 5 h for
+    checks that take minutes): when a change to the library makes it loop or crawl on the generated inputs the check
+    does not hang, it reports that the property could not be shown to hold."""
+    import signal
     import traceback
+    tier = parse_args(sys.argv[1:])[0]
+    budget = int(os.environ.get("PYVSC_VERIF_BUDGET_S", "18000" if tier == "thorough" else "1500"))
+    prop = os.path.basename(sys.argv[0])[:3].upper()
+    signal.signal(signal.SIGALRM, _on_alarm)
+    signal.alarm(budget)
     try:
         main()
+    except CheckTimeout:
+        os.makedirs(os.path.join(VERIF, "replays"), exist_ok=True)
+        rel = "replays/%s-timeout.json" % prop
+        json.dump({"property": prop, "kind": "no-termination", "tier": tier, "budget_s": budget,
+                   "note": "the check did not finish within its wall-clock budget: on the generated inputs the library does not "
+                           "return (or is orders of magnitude slower than on the registered tree); the theorems of this property "
+                           "are not tied to this code; no single failing input was isolated"},
+                  open(os.path.join(VERIF, rel), "w"), indent=1)
+        print("VIOLATION property=%s replay=%s no-failing-input-found" % (prop, rel))
+        sys.stdout.flush()
+        _kill_descendants()                              # worker processes still inside the library
+        os._exit(EXIT_VIOLATION)
     except InfraError as e:
         print("INFRA-ERROR: " + str(e))
         sys.exit(EXIT_INFRA)
